@@ -101,6 +101,9 @@ def verdicts(x, cats):
     return res
 
 
+REVERSE = [False]
+
+
 def numpy_dtypes():
     import numpy as np, ml_dtypes
     seen, out = set(), []
@@ -122,11 +125,14 @@ def numpy_dtypes():
         out.append((t.__name__, x))
     out.append(("struct1", np.zeros((2,), dtype=np.dtype([("a", np.float32), ("b", np.int8)]))))
     out.append(("struct2", np.zeros((2,), dtype=np.dtype([("x", np.int32, (2,))]))))
+    if REVERSE[0]:
+        out.reverse()       # the second pass enumerates in the opposite order: a verdict must not depend on what was checked before
     return out
 
 
 def main():
     req = json.load(sys.stdin)
+    REVERSE[0] = bool(req.get("reverse"))
     buf = io.StringIO()
     rows, notes = [], []
     with contextlib.redirect_stdout(buf), contextlib.redirect_stderr(io.StringIO()), warnings.catch_warnings():
